@@ -31,6 +31,7 @@ const (
 	invHullHi                // φ <= base + k
 	invTripHi                // φ <= e + k·len(s)   (range-over-string trip bound)
 	invTripLo                // φ >= e + k·len(s)   (k <= 0)
+	invLEPhi                 // φ <= φ2 + k         (a marker that trails a loop counter)
 )
 
 type invariant struct {
@@ -103,6 +104,14 @@ func (iv *invariant) goals(c *Ctx, repl, repl2 ssa.Value) []lin.Con {
 		return []lin.Con{lin.LE(x, c.quant(iv.e, isLen).Add(c.LenOf(iv.s).Scale(iv.k)))}
 	case invTripLo:
 		return []lin.Con{lin.GE(x, c.quant(iv.e, isLen).Add(c.LenOf(iv.s).Scale(iv.k)))}
+	case invLEPhi:
+		var y lin.Form
+		if repl2 == nil {
+			y = c.phiTerm(iv.phi2)
+		} else {
+			y = c.quant(repl2, phiIsLen(iv.phi2))
+		}
+		return []lin.Con{lin.LE(x, y.Add(lin.KB(iv.k)))}
 	case invLinear:
 		isLen2 := phiIsLen(iv.phi2)
 		var y lin.Form
@@ -275,6 +284,21 @@ func (fi *FuncInfo) headerInvariants(hb *ssa.BasicBlock) {
 		}
 		all = append(all, cands...)
 	}
+	// a marker variable that trails a loop counter (start := -1 … start = i+1): p <= q + k
+	if isLoop && len(phis) > 1 && len(phis) <= 6 {
+		for _, p := range phis {
+			for _, q := range phis {
+				if p == q || phiIsLen(p) || phiIsLen(q) {
+					continue
+				}
+				for _, k := range []int64{0, 1} {
+					iv := &invariant{kind: invLEPhi, phi: p, phi2: q, k: big.NewInt(k)}
+					fi.invC[p] = append(fi.invC[p], *iv)
+					all = append(all, iv)
+				}
+			}
+		}
+	}
 	sync := func() {
 		for _, p := range phis {
 			fi.invC[p] = fi.invC[p][:0]
@@ -425,8 +449,32 @@ func (fi *FuncInfo) headerInvariants(hb *ssa.BasicBlock) {
 					d := ec.Lin(b.Edges[i]).Sub(ec.phiTerm(b))
 					kv, isK := d.ConstVal()
 					if !isK {
-						ok = false
-						break
+						// a step that is not constant but provably within small bounds
+						// (units += utf16.RuneLen(r): 1 or 2 per rune)
+						var bh, bl *big.Int
+						for _, k := range []int64{0, 1, 2, 3, 4, 8, 16, 64, 256} {
+							if ec.Entails(lin.LE(d, lin.K(k))) {
+								bh = big.NewInt(k)
+								break
+							}
+						}
+						for _, k := range []int64{0, -1, -2, -3, -4, -8, -16, -64, -256} {
+							if ec.Entails(lin.GE(d, lin.K(k))) {
+								bl = big.NewInt(k)
+								break
+							}
+						}
+						if bh == nil || bl == nil {
+							ok = false
+							break
+						}
+						if lo == nil || bl.Cmp(lo) < 0 {
+							lo = bl
+						}
+						if hi == nil || bh.Cmp(hi) > 0 {
+							hi = bh
+						}
+						continue
 					}
 					if lo == nil || kv.Cmp(lo) < 0 {
 						lo = kv
